@@ -92,6 +92,14 @@ class Enc:
             return '(div %s %s)' % (a, b)
         if op == 'urem':
             return '(mod %s %s)' % (a, b)
+        if op == 'xor' and b == str((1 << n) - 1):
+            return '(- %d %s)' % ((1 << n) - 1, a)        # bitwise not
+        if op == 'xor' and a == str((1 << n) - 1):
+            return '(- %d %s)' % ((1 << n) - 1, b)
+        if op == 'shl' and b.isdigit():
+            return self.wrap(n, '(* %s %d)' % (a, 1 << int(b)))
+        if op == 'lshr' and b.isdigit():
+            return '(div %s %d)' % (a, 1 << int(b))
         raise Unsupported('int encoding of ' + op)
 
     def icmp(self, pred, ty, a, b):
